@@ -19,7 +19,8 @@ EXTENDS Integers, Sequences, TLC, FiniteSets, Json
 
 CONSTANTS MaxOps,     \* bound on the number of operator nodes
           Modes,      \* subset of {"min","full","red"}
-          Concrete    \* TRUE: every concrete operator; FALSE: one representative per class
+          Concrete,   \* TRUE: every concrete operator; FALSE: one representative per class
+          BinOnly     \* TRUE: binary operators only (one per level): flat chains of 4-5 operators in every tree shape
 
 VARIABLES stack, toks, vals, ops, nleaf, mode, rl
 vars == <<stack, toks, vals, ops, nleaf, mode, rl>>
@@ -54,7 +55,8 @@ IntTypename == [k |-> "Typename", name |-> Nil, quals |-> <<>>,
                           type |-> [k |-> "IdentifierType", names |-> <<"int">>]]]
 
 \* One record per production of 6.5: its level, its right-hand side, its cost in operator nodes.
-Prods ==
+BinProds == { [lvl |-> BinLevel(op), rhs |-> <<N(BinLevel(op)), T(op), N(BinLevel(op)+1), R("BinaryOp", op, 2)>>, cost |-> 1] : op \in RepBin }
+Prods == IF BinOnly THEN BinProds ELSE
      { [lvl |-> BinLevel(op), rhs |-> <<N(BinLevel(op)), T(op), N(BinLevel(op)+1), R("BinaryOp", op, 2)>>, cost |-> 1] : op \in BinOps }
   \cup { [lvl |-> 2,  rhs |-> <<N(15), T(op), N(2), R("Assignment", op, 2)>>, cost |-> 1] : op \in AsgOps }
   \cup { [lvl |-> 3,  rhs |-> <<N(4), T("?"), N(1), T(":"), N(3), R("TernaryOp", "", 3)>>, cost |-> 1] }
